@@ -395,7 +395,8 @@ func (ex *Exec) runPath(fn *ssa.Function) (end pathEnd) {
 
 // makeWitness extracts a model of a completed path (translator validation input).
 func (ex *Exec) makeWitness() {
-	if !ex.wantWitness || len(ex.findings) > 0 {
+	if !ex.wantWitness || len(ex.findings) > 0 || ex.gmodeOn() {
+		// goroutine-mode paths are not replayed natively (a schedule has no native twin)
 		return
 	}
 	if ex.check(ex.ts.True, true) != Sat {
